@@ -1,3 +1,3 @@
 """Sidecar contracts for emmetio/py-emmet.  Importing this package registers every
 contract in pyvc.contracts.REG."""
-from . import scanner, css_matcher, html_matcher, tokenizers, extract, config, output, markup, math, stylesheet, action_utils, parser  # noqa
+from . import scanner, css_matcher, html_matcher, tokenizers, extract, config, output, markup, math, stylesheet, action_utils, parser, convert  # noqa
